@@ -775,6 +775,11 @@ func exec(op string) (string, string) {
 		}
 		obs := runApproval(n, submitter, hx.AtoU64(f[3]), hx.AtoU64(f[4]), hx.AtoU64(f[5]), seats, f[7], f[8])
 		tag := "tappr"
+		for _, st := range seats {
+			if st >= 19 && st != submitter { // (idx-1)*15 exceeds a byte
+				tag = "tappr+hiseat"
+			}
+		}
 		if seen[submitter] {
 			tag += "+submitterseat"
 		}
@@ -809,6 +814,9 @@ func exec(op string) (string, string) {
 		} else if last == "-" {
 			tag += "+submitted"
 		}
+		if n >= 87 && nsigs >= thr && ((f[0] == "tdkg" && f[5] == "2") || (f[0] == "tinact" && hx.Atoi(f[6]) <= hx.Atoi(f[5]))) {
+			tag += "+hiidx" // members whose (idx-1)*step exceeds a byte actually wait
+		}
 		return "T=- " + strings.Join(ms, ","), tag
 	}
 	return "bad-op", "bad"
@@ -829,7 +837,13 @@ func entryFor(r *hx.Rng, n int, residue int) string {
 }
 
 func pickN(r *hx.Rng) int {
-	switch r.Intn(10) {
+	switch r.Intn(13) {
+	case 10: // production sizes: tBTC wallets have 100 members, uint8 indices go up to 255
+		return 100
+	case 11:
+		return 255
+	case 12:
+		return r.Range(65, 255)
 	case 0:
 		return 1
 	case 1, 2:
